@@ -1,5 +1,5 @@
 (** Types of the objects gen/jsonx.go emits into Gen/JsonxConsts.v. *)
-From Coq Require Import List NArith String Bool.
+From Coq Require Import List NArith String Ascii Bool.
 Import ListNotations.
 
 (** A Go boolean expression over the lexer's current rune ([GRuneIs],
@@ -74,3 +74,45 @@ Fixpoint eval_see (sep eof : bool) (e : gexpr) : option bool :=
               else if String.eqb w "EOF" then Some eof else None
   | _ => None
   end.
+
+(** Where the []byte an entry point returns comes from (gen/jsonx_own.go).
+    [RFresh]: a buffer made in that very call (new(bytes.Buffer), make,
+    a conversion that copies); [RNil]; [RCall f]: the result of function [f]
+    of the same table; everything else is memory that outlives the call or
+    that the translator cannot place: the buffer of something that is not
+    fresh ([RBufferOf]), a value taken out of an interface - a pool -
+    ([RPooled]), a package-level variable, a field, a parameter, the result
+    of a function outside the table. *)
+Inductive rorigin :=
+| RNil
+| RFresh
+| RCall (f : string)
+| RBufferOf (o : rorigin)
+| RPooled (src : string)
+| RGlobal (name : string)
+| RField (src : string)
+| RParam (name : string)
+| RForeign (src : string)
+| RUnknown (src : string).
+
+Definition origin_fresh (table : list string) (pkg : string) (o : rorigin) : bool :=
+  match o with
+  | RNil | RFresh => true
+  | RCall f => existsb (String.eqb (pkg ++ "." ++ f)) table
+  | _ => false
+  end.
+
+(** The package part of "pkg.Func". *)
+Fixpoint pkg_of (s : string) : string :=
+  match s with
+  | EmptyString => EmptyString
+  | String c r => if Ascii.eqb c "."%char then EmptyString else String c (pkg_of r)
+  end.
+
+(** Every function of the table returns nil, a buffer of its own, or what
+    another function of the table returns (which, the table being closed
+    under this, is again one of the three); no package-level variable is or
+    holds a buffer. *)
+Definition results_fresh (t : list (string * list rorigin)) (vars : list (string * string)) : bool :=
+  forallb (fun fo => forallb (origin_fresh (map fst t) (pkg_of (fst fo))) (snd fo)) t
+  && match vars with [] => true | _ => false end.
